@@ -837,6 +837,10 @@ def check(run):
     order_oracle(run, probes[:n_plain])
 
     _tick(run, 'order')
+    # ---- mixed-version stores read back without a version ----------------------------------------------------------
+    mixed_oracle(run, probes[:n_plain])
+    _tick(run, 'mixed')
+
     # ---- library output handed back without a version -------------------------------------
     own_cases = []
     for p in probes:
@@ -989,6 +993,61 @@ def order_confirm(c):
         % (c["entry"], c["cid"], c["second"], short(seq["after"]), "id" if c["how"] == "id" else "referenced id", c["first"],
            short(seq["prime"]), short(alone["after"])),
         {"kind": "order", "case": c}, finding=None)
+
+
+def mixed_cases(run, probes):
+    pool = {"2.0": [], "2.1": []}
+    for p in probes:
+        d = p["data"]
+        if p["variant"] == "base" and p["kind"] != "bundle" and isinstance(d.get("id"), str) and isinstance(d.get("type"), str) \
+                and all(ch.isalnum() or ch in "-_" for ch in d["id"] + d["type"]):
+            pool[p["ver"]].append(p)
+    n = 300 if run.tier == "thorough" else 70
+    cases = []
+    if not pool["2.0"] or not pool["2.1"]:
+        return cases
+    for _ in range(n):
+        k20, k21 = run.rng.choice([(1, 1), (1, 2), (2, 1), (2, 2)])
+        items, types = [], set()
+        for ver, k in (("2.0", k20), ("2.1", k21)):
+            for p in run.rng.sample(pool[ver], min(len(pool[ver]), k + 2)):
+                if p["data"]["type"] in types or sum(1 for it in items if it["version"] == ver) >= k:
+                    continue
+                types.add(p["data"]["type"])
+                items.append({"data": p["data"], "version": ver, "cid": p["cid"]})
+        run.rng.shuffle(items)
+        cases.append({"op": "mixed", "items": items})
+    return cases
+
+
+def mixed_judge(r):
+    """-> list of (via, text) where a version-less read of the mixed store does not give every object its own class back"""
+    bad = []
+    for via, got in r.get("got", {}).items():
+        if "exc" in got:
+            bad.append((via, "raised %s" % short(got["exc"] + [None])))
+            continue
+        for i, cls in r["want"].items():
+            if got.get(i) != cls:
+                bad.append((via, "%s (serialised from %s) came back as %s" % (i, short_cls(cls), short_cls(got[i]) if i in got else "nothing")))
+    return bad
+
+
+def mixed_oracle(run, probes):
+    cases = mixed_cases(run, probes)
+    res = common.run_impl("c14_impl", cases, procs=min(common.NCPU, 8))
+    n_built = 0
+    for c, r in zip(cases, res):
+        run.count({"mixed": c}, nontrivial=r.get("built", 0) >= 2)
+        if r.get("built", 0) < 2:
+            continue
+        n_built += 1
+        for via, text in mixed_judge(r)[:2]:
+            run.violations.append(Violation(
+                "a store holding library output of both versions (%s; directory order %s), read through %s without a version: %s"
+                % (", ".join(sorted(short_cls(x) for x in r["want"].values())), r.get("dir_order"), via, text),
+                {"kind": "mixed", "case": c, "via": via}, finding=None))
+    run.coverage["mixed_stores"] = n_built
 
 
 def short_cls(c):
@@ -1179,6 +1238,18 @@ def replay(payload):
         if v is not None and fn != "bundlefile" and out[0] in ("ok", "exc") and out[-1] is not None and v not in out[-1]:
             print("  the content was interpreted as version %s, not the version named (%s)" % (out[-1], v))
             bad = True
+        if bad:
+            print("VIOLATION property=C14 replay=(given)")
+            return 1
+        print("no violation on this input")
+        return 0
+    if r.get("kind") == "mixed":
+        res = common.run_impl("c14_impl", [r["case"]], procs=1)[0]
+        print("replay mixed-version store: %s, directory order %s" % (
+            {i: short_cls(k) for i, k in res.get("want", {}).items()}, res.get("dir_order")))
+        bad = [b for b in mixed_judge(res) if b[0] == r.get("via")] or mixed_judge(res)
+        for via, text in bad[:4]:
+            print("  through %s without a version: %s" % (via, text))
         if bad:
             print("VIOLATION property=C14 replay=(given)")
             return 1
